@@ -159,7 +159,8 @@ def normalize_hostname(hostname, normalize_amp=True):
     hostname = pattern.sub("", hostname)
 
     if normalize_amp and hostname.startswith("amp-"):
-        hostname = hostname[4:]
+        # NOTE: what follows "amp-" can be an irrelevant subdomain too
+        hostname = pattern.sub("", hostname[4:])
 
     hostname = decode_punycode_hostname(hostname)
 
@@ -424,6 +425,10 @@ def normalize_url(
     # Normalizing AMP subdomains
     if normalize_amp and hostname and hostname.startswith("amp-"):
         hostname = hostname[4:]
+
+        # NOTE: what follows "amp-" can be an irrelevant subdomain too
+        if strip_irrelevant_subdomains:
+            hostname = IRRELEVANT_SUBDOMAIN_AMP_RE.sub("", hostname)
 
     # Dropping trailing slash
     if strip_trailing_slash and path.endswith("/"):
